@@ -197,6 +197,8 @@ class GenX(F.Gen):
                 if isfun:
                     intents[s] = 'in'
         # functions have no side effects: no PRINT, no definition of dummies / host entities
+        if not isfun and 'calleeprint' not in self.f:
+            sub.no_print = True       # PRINT in a callee is a construct of its own (slice 'calleeprint')
         if isfun:
             sub.no_print = True
             sub.forbid_write = {s for s, r in roles.items() if r in (D, H)}
@@ -224,7 +226,7 @@ class GenX(F.Gen):
                 init.append(init_std[s])
         body = init + body
         # names
-        ident = rng.random() < 0.25
+        ident = 'identnames' in self.f and rng.random() < 0.5
         keep_locals = rng.random() < 0.6
         nm = {}
         for s, r in roles.items():
@@ -332,11 +334,18 @@ class GenX(F.Gen):
                 actual[s] = N(rng.choice([0, 1, 2, 3]))
             elif r < 0.55 and elem_arrays:
                 actual[s] = el(rng.choice(elem_arrays), self.simple_index('ia'))
-            elif r < 0.8:
-                actual[s] = op('sum', self.int_expr(1, self.int_scalars_noarr), N(1))     # a temporary: may mention anything
+            elif 'exprdep' in self.f:
+                if r < 0.8:
+                    actual[s] = op('sum', self.int_expr(1, self.int_scalars_noarr), N(1))     # a temporary: may mention anything
+                else:
+                    cands = [v for v in self.int_scalars_noarr if not v.startswith('z')]
+                    actual[s] = op('sum', V(rng.choice(cands)), N(rng.choice([1, 2])))
             else:
-                cands = [v for v in self.int_scalars_noarr if not v.startswith('z')]
-                actual[s] = op('sum', V(rng.choice(cands)), N(rng.choice([1, 2])))
+                # a temporary over entities the callee cannot define
+                safe = [V(v) for v in plain] + [N(2), N(3)]
+                a, b = rng.choice(safe), rng.choice(safe)
+                actual[s] = rng.choice([op('sum', a, N(1)), op('prod', a, b), op('sum', a, op('neg', b)),
+                                        call('mod', op('sum', a, N(5)), N(4)), op('quot', op('sum', a, N(7)), N(2))])
         if roles.get('flag') == 'D':
             actual['flag'] = rng.choice([V('flag'), op('not', V('flag')), cmp_('>', V('m'), N(1))])
         args = [actual[inv[a]] for a in h['unit']['args']]
